@@ -34,6 +34,9 @@ type PropSpec struct {
 	Assumptions []string
 	Plan        func(tier string, seed uint64) []Job
 	ReplayReps  int
+	// Keep, when set, selects the violations that belong to this property (a
+	// child shared by several properties tags each signature with its property).
+	Keep func(sig string) bool
 	// Post, when set, runs driver-side checkers over the merged output.
 	Post func(spec *PropSpec, out *merged)
 }
@@ -299,6 +302,11 @@ func runOne(spec *PropSpec, bin string, job Job, base string, out *merged) {
 		}
 		for _, v := range res.Violations {
 			v.job = job
+			if spec.Keep != nil && !spec.Keep(v.Sig) {
+				out.events["violations_of_other_properties"]++
+				out.events["other_property_violation."+v.Sig]++
+				continue
+			}
 			out.violations = append(out.violations, v)
 		}
 		out.inconclusive = append(out.inconclusive, res.Inconclusive...)
@@ -413,10 +421,23 @@ func writeEvidence(spec *PropSpec, tier string, seed uint64, out *merged, nviol 
 		sigs = append(sigs, k)
 	}
 	sort.Strings(sigs)
-	if len(sigs) > 60 {
-		sigs = sigs[:60]
+	// stratified listing: up to 8 signatures per leading path segment
+	perGroup := map[string]int{}
+	groupTotal := map[string]int{}
+	var listed []string
+	for _, sg := range sigs {
+		g := sg
+		if i := strings.IndexAny(sg, "/:"); i >= 0 {
+			g = sg[:i]
+		}
+		groupTotal[g]++
+		if perGroup[g] < 8 && len(listed) < 120 {
+			perGroup[g]++
+			listed = append(listed, sg)
+		}
 	}
-	cov["distinct_signatures_sample"] = sigs
+	cov["distinct_signatures_sample"] = listed
+	cov["distinct_signatures_by_group"] = groupTotal
 	if len(out.notes) > 0 {
 		cov["notes"] = out.notes
 	}
